@@ -126,7 +126,7 @@ def write_replay(pid, kind, payload):
 
 
 def run_check(pid, tier, seed, mc_runs, replay_runs, level_text, assumptions, rule, level='model_checking', extra_cov=None,
-              extra_violations=0):
+              extra_violations=0, suite_traces=None):
     """mc_runs: list of dicts for model_check; replay_runs: list of dicts for graph_replay."""
     t0 = time.time()
     violations = 0
@@ -171,6 +171,19 @@ def run_check(pid, tier, seed, mc_runs, replay_runs, level_text, assumptions, ru
             print('DIVERGENCE program=%s plan=%s after %s: %s' % (d['prog']['name'], d['plan'], d['path'][:d['at']], d['diffs'][:3]))
             print('VIOLATION property=%s replay=%s' % (pid, path))
         violations += len(g['divergent'])
+    suite = None
+    if suite_traces is not None:
+        # direction V: the repository's own test-suite under the recorder, validated by TLC against ObservableTrace.tla
+        from . import obs_trace
+        suite = obs_trace.run_stage(suite_traces)
+        for v in suite['violations'][:5]:
+            path = write_replay(pid, 'suitetrace', {'kind': 'rejected-test-suite-trace', 'process_class': v['cls'], 'first_unexplained_event': v['at'],
+                                                   'event': v['event'], 'events': v['events']})
+            print('TRACE REJECTED (test-suite process %s): event %d %s is not a step of the observable protocol' % (v['cls'], v['at'], v['event']))
+            print('VIOLATION property=%s replay=%s' % (pid, path))
+        violations += len(suite['violations'])
+        replayed += suite.get('accepted', 0)
+        suite = {k: v for k, v in suite.items() if k != 'violations'}
     findings.print_known(pid, devs)
     cov = {
         'states': max(states, 1), 'transitions': max(transitions, 1), 'traces_validated_against_impl': replayed,
@@ -182,6 +195,8 @@ def run_check(pid, tier, seed, mc_runs, replay_runs, level_text, assumptions, ru
         'model_checking': mc_summ, 'replay': rp_summ, 'deviation_clauses_exercised': sorted(devs),
         'fixes_modelled': FIXES,
     }
+    if suite is not None:
+        cov['test_suite_traces'] = suite
     if extra_cov:
         cov.update(extra_cov)
         cov['traces_validated_against_impl'] += extra_cov.get('outline_behaviours_on_impl', 0)
